@@ -173,8 +173,10 @@ def generate(rng, tier):
     lo, n = max(4, last.pos + 1), len(w.data)
     if n - lo > 1500:
         # wide rows: every byte of the last segment's metadata, then a seeded sample of the raw data offsets
-        cs = set(range(lo, min(n, last.data_pos + 8))) | set(range(max(lo, n - 40), n))
-        cs |= set(rng.sample(range(last.data_pos, n), min(500, n - last.data_pos)))
+        cs = set(range(lo, min(n, last.pos + 36))) | set(range(max(lo, n - 40), n))
+        meta = list(range(min(n, last.pos + 36), min(n, last.data_pos + 8)))
+        cs |= set(rng.sample(meta, min(150, len(meta))))
+        cs |= set(rng.sample(range(last.data_pos, n), min(250, n - last.data_pos)))
         cuts = sorted(cs)
     return {'spec': spec, 'ops': reqs, 'cuts': cuts, 'short_seed': rng.getrandbits(32) if rng.random() < 0.3 else None}
 
